@@ -288,6 +288,11 @@ def g_gadget(r, const_only=None):
         return "%s %s %d %s" % (op, name, w, a(mw()))
     if name == "ones":
         return "%s ones %d" % (op, w)
+    if name in ("mod", "signeddiv", "signedmod") and r.random() < 0.12 and w <= 100:
+        # a divisor wider than the operation whose low w bytes are all zero: zero once cropped to the width
+        nx = r.choice([0, 1, 3, 7])
+        dv = "c:" + (bytes(w) + bytes([r.randint(1, 255)]) + (rbytes(r, nx) if nx else b"")).hex()
+        return "%s %s %d %s %s" % (op, name, w, a(), dv)
     if name in ("sub", "mod", "bitand", "bitor", "bitxor"):
         return "%s %s %d %s %s" % (op, name, w, a(mw()), a(mw()))
     if name in ("signeddiv", "signedmod"):
